@@ -166,3 +166,17 @@ Theorem C02_history_independent {T : Type} (Ops : NumOps T) (reqs : list ((T -> 
   nth_error (find_root_seq Ops reqs) k = Some (serve Ops q).
 Proof. exact (seq_history_independent Ops reqs k q). Qed.
 Print Assumptions C02_history_independent.
+
+(** "... a bracket ... with NaN ends terminates the process ... instead of returning a number" takes precedence over
+    "a bracket end that is itself a zero is returned as is": when the function is NaN at one end and an exact zero
+    (+0 or -0) at the other, in either position, the process is terminated after the two end evaluations — on every
+    instance of the number interface (IEEE doubles included) — and the history the request belongs to ends with it. *)
+Theorem C02_nan_end_beats_zero_end {T : Type} (Ops : NumOps T) (f : T -> T) (a b acc : T) :
+  let xl := if ngtb Ops a b then b else a in
+  let xr := if ngtb Ops a b then a else b in
+  (neqb Ops (f xl) (nofZ Ops 0) = true /\ nisnan Ops (f xr) = true) \/
+  (nisnan Ops (f xl) = true /\ neqb Ops (f xr) (nofZ Ops 0) = true) ->
+  find_root Ops f a b acc = (Exit, [xl; xr]) /\
+  forall rest, find_root_seq Ops ((f, a, b, acc) :: rest) = [(Exit, [xl; xr])].
+Proof. exact (nan_end_beats_zero_end Ops f a b acc). Qed.
+Print Assumptions C02_nan_end_beats_zero_end.
